@@ -138,6 +138,20 @@ CaseResult run_closed_exit_handle(Tape &t)
     reproc_destroy(ch.p);
     return res;
   }
+  // half of these children are also stopped from outside (SIGSTOP, as a shell's ^Z or a
+  // debugger would) before the call and continued later, before their scheduled end
+  bool stopped = t.coin();
+  if (stopped) {
+    res.cls("child-stopped-by-sigstop");
+    kill(ch.pid, SIGSTOP);
+    for (int i = 0; i < 20000 && hz::proc_state(ch.pid) != 'T'; i++) usleep(200);
+    int64_t cont_at = t0 + call_after + (die_after - call_after) / 2;
+    pid_t cpid = ch.pid;
+    w.schedule_call(cont_at, [cpid] {
+      kill(cpid, SIGCONT);
+      for (int i = 0; i < 20000 && hz::proc_state(cpid) == 'T'; i++) usleep(200);
+    });
+  }
   w.advance_to(t0 + call_after);
   int64_t death = t0 + die_after;
   reproc_stop_actions sa = { { REPROC_STOP_WAIT, form == 2 ? 0 : finite }, { REPROC_STOP_NOOP, 0 }, { REPROC_STOP_NOOP, 0 } };
